@@ -55,7 +55,7 @@ class Projection(Component):
     rule = ">=2 requested attributes in non-table order on some side and >=1 output row"
 
     def examples(self, tier):
-        return 200 if tier == "quick" else 1500
+        return 500 if tier == "quick" else 1500
 
     def strategy(self, tier):
         return projection_case(tier)
